@@ -15,7 +15,7 @@ from hypothesis import strategies as st
 from vlib.runner import Clause
 from vlib import gen
 from vlib.tol import close, describe, maxdiff
-from vlib.digest import digest, digest_diff, state_diff
+from vlib.digest import digest, digest_diff, state_diff, parameter_mutation
 
 from menpo.shape import TriMesh, ColouredTriMesh, TexturedTriMesh, PointCloud
 from menpo.image import Image
@@ -397,6 +397,15 @@ def c_mask(case, ctx):
         ctx.event("tri mask: unselected triangle survives")
     ctx.nontrivial(len(exp_verts) < n)
 
+    # the receiver has been used before it is masked: every derived query has been asked once (an implementation is
+    # free to memoise them, the masked result must still answer for ITS OWN connectivity - checked further down)
+    mesh.boundary_tri_index()
+    mesh.tri_areas()
+    mesh.unique_edge_indices()
+    mesh.edge_lengths()
+    if P.shape[1] == 3:
+        mesh.tri_normals()
+        mesh.vertex_normals()
     before = digest(mesh)
     if tmask is None:
         arg = np.array(vm, dtype=bool)
@@ -404,7 +413,7 @@ def c_mask(case, ctx):
     else:
         arg = np.array(tmask, dtype=bool)
         res = mesh.from_tri_mask(arg)
-    dd = digest_diff(before, digest(mesh))
+    dd = parameter_mutation(before, digest(mesh))
     ctx.expect(dd is None, "mask.receiver_mutated", lambda: repr(dd))
     ctx.expect(type(res) is type(mesh), "mask.result_class", type(res).__name__)
 
@@ -463,6 +472,26 @@ def c_mask(case, ctx):
             "mask.result_has_orphan",
             lambda: "n_points=%d, used by trilist %d" % (RP.shape[0], len(used_res)),
         )
+    # ---- derived queries of the result answer for the result's own geometry (not for the receiver's)
+    rT = [[int(v) for v in row] for row in RT]
+    rcounts = {}
+    for t_ in rT:
+        for e in range(3):
+            k_ = ukey(t_[e], t_[(e + 1) % 3])
+            rcounts[k_] = rcounts.get(k_, 0) + 1
+    want_b = [any(rcounts[ukey(t_[e], t_[(e + 1) % 3])] == 1 for e in range(3)) for t_ in rT]
+    got_b = np.asarray(res.boundary_tri_index())
+    ctx.expect(got_b.shape == (len(rT),) and [bool(x) for x in got_b] == want_b, "mask.result_boundary_tri_index",
+               lambda: "result trilist %s: boundary %s, reference %s" % (rT, got_b.tolist(), want_b))
+    rp = [[float(x) for x in row] for row in RP]
+    want_a = [ref_area(rp, t_) for t_ in rT]
+    got_a = np.asarray(res.tri_areas())
+    Lr = float(max(np.abs(RP).max(), 1.0))
+    ctx.expect(got_a.shape == (len(rT),) and close(got_a, want_a, atol=1e-9 * Lr * Lr, rtol=0), "mask.result_tri_areas",
+               lambda: describe(got_a, np.array(want_a)))
+    got_u = np.asarray(res.unique_edge_indices())
+    ctx.expect(sorted(tuple(sorted(int(v) for v in r_)) for r_ in got_u) == sorted(rcounts.keys()), "mask.result_unique_edges",
+               lambda: "%s vs %s" % (got_u.tolist(), sorted(rcounts.keys())))
     # ---- attributes travel with their vertices
     if b.colours is not None:
         RC = np.asarray(res.colours)
@@ -735,7 +764,7 @@ def c_edges(case, ctx):
                 if min(maxdiff(g, w), maxdiff(g, -w)) > 1e-9 * L:
                     ok = False
         ctx.expect(ok, "edge_vectors.trilist", lambda: "trilist=%s edge_vectors=%s" % (T, EV.tolist()))
-    dd = digest_diff(before, digest(mesh))
+    dd = parameter_mutation(before, digest(mesh))
     ctx.expect(dd is None, "edges.receiver_mutated", lambda: repr(dd))
 
 
